@@ -444,6 +444,62 @@ impl<T: Val> InPort for InPkt<T> {
         true
     }
 }
+/// Output port for a stream of Strings (DebugFilter): logged as byte packets.
+pub struct OutStr {
+    rs: Option<NCReadStream<String>>,
+    id: usize,
+    taken: usize,
+}
+impl OutStr {
+    pub fn new(rs: NCReadStream<String>) -> Self {
+        let id = StreamWait::verif_id(&rs);
+        Self { rs: Some(rs), id, taken: 0 }
+    }
+}
+impl OutPort for OutStr {
+    fn id(&self) -> usize {
+        self.id
+    }
+    fn avail(&self) -> usize {
+        self.rs.as_ref().map(|r| r.verif_len()).unwrap_or(0)
+    }
+    fn space(&self) -> usize {
+        1 << 20
+    }
+    fn peek_new(&mut self) -> (Vec<Vec<i64>>, Vec<Option<i64>>, Vec<Value>) {
+        let Some(rs) = self.rs.as_ref() else { return (vec![], vec![], vec![]) };
+        let mut out = Vec::new();
+        let mut nums = Vec::new();
+        while let Some((p, _)) = rs.pop() {
+            let b = p.as_bytes();
+            let mut l = vec![b.len() as i64];
+            l.extend(b.iter().map(|x| *x as i64));
+            out.push(l);
+            nums.push(Some(-1));
+            nums.extend(b.iter().map(|x| Some(*x as i64)));
+            self.taken += 1;
+        }
+        (out, nums, vec![])
+    }
+    fn drain(&mut self, _k: usize) -> usize {
+        0
+    }
+    fn drop_reader(&mut self) {
+        self.rs = None;
+    }
+    fn dropped(&self) -> bool {
+        self.rs.is_none()
+    }
+    fn refcount(&self) -> usize {
+        if self.rs.is_some() { 2 } else { 0 }
+    }
+    fn produced(&self) -> usize {
+        self.taken
+    }
+    fn is_packet(&self) -> bool {
+        true
+    }
+}
 pub struct OutPkt<T: Val> {
     rs: Option<NCReadStream<Vec<T>>>,
     id: usize,
